@@ -297,7 +297,7 @@ def worker(job):
 def main(chk, tier, seed):
     chk.rule = RULE
     chk.extra["exhaustive_within_case"] = "all departed subsets / all binary assignments of each generated instance"
-    n = 6000 if tier == "quick" else 50000
+    n = 6000 if tier == "quick" else 250000
     common.run_chunked(chk, "c26", n, nchunks=16 if tier == "quick" else 64, timeout=3000)
     chk.inconclusive_if(len(chk.extra.get("constraint_kinds", {})) < 4, "not all four constraint kinds exercised")
     chk.inconclusive_if(chk.counters.get("departed_subsets_checked", 0) < 1000, "too few departed subsets")
